@@ -773,3 +773,37 @@ def U_M2_games():
                               transition_list=[[(ACTIONS[0], 1), (ACTIONS[1], 2)], [(1 - t, 0), (t, 3)], [(0.5, 4), (0.5, 3)], [(1, 3)], [(1, 4)]],
                               final_states=[4]))
     return games
+
+
+def U_RB_games():
+    """exact ties whose two floating-point evaluations fall on different sides of a 6-digit rounding boundary although
+    everything has converged (acyclic games): reachability 0.75*0.85*0.875 against 0.85*0.75*0.875 (= 0.5578125 exactly), and
+    expected rewards 0.001*(0.0025*9) against 0.005*(0.0005*9) (= 0.0000225 exactly); plus exact ties between rewards of 1e10."""
+    games = []
+    import itertools as it
+    L, W = 9, 10
+    for chooser in (P1, P2):
+        for o1, o2 in it.permutations(list(it.permutations((0.75, 0.85, 0.875))), 2):
+            if o1 > o2:
+                continue
+            # 0 chooser; 1,2,3 chain a; 4,5,6 chain b; 7,8 unused fillers; 9 L; 10 W
+            tl = [[(ACTIONS[0], 1), (ACTIONS[1], 4)]]
+            for base, order in ((1, o1), (4, o2)):
+                for k, p in enumerate(order):
+                    nxt = base + k + 1 if k < 2 else W
+                    tl.append([(p, nxt), (round(1 - p, 3), L)])
+            tl += [[(1, W)], [(1, W)], [(1, L)], [(1, W)]]
+            games.append(dict(rewards=[0, 1, 0, 0, 2, 0, 0, 0, 0, 0, 0], players=[chooser] + [PR] * 10, transition_list=tl, final_states=[W]))
+    # reward ties: both candidates reach the goal surely
+    for chooser in (P1, P2):
+        for swap in (0, 1):
+            for big in (9, 10 ** 10, 10 ** 10 + 1):
+                # 0 chooser; 1: (pa -> 3, rest -> 6); 2: (pb -> 4, rest -> 6); 3: (qa -> 5, rest -> 6); 4: (qb -> 5, rest -> 6); 5: reward big -> W; 6: Z -> W; 7: W
+                (pa, qa), (pb, qb) = ((0.001, 0.0025), (0.005, 0.0005)) if big == 9 else ((0.2, 1.0), (0.4, 0.5))
+                if swap:
+                    (pa, qa), (pb, qb) = (pb, qb), (pa, qa)
+                def row(p, t):
+                    return [(p, t), (round(1 - p, 6), 6)] if p < 1 else [(1, t)]
+                tl = [[(ACTIONS[0], 1), (ACTIONS[1], 2)], row(pa, 3), row(pb, 4), row(qa, 5), row(qb, 5), [(1, 7)], [(1, 7)], [(1, 7)]]
+                games.append(dict(rewards=[0, 0, 0, 0, 0, big, 0, 0], players=[chooser] + [PR] * 7, transition_list=tl, final_states=[7]))
+    return games
